@@ -327,7 +327,7 @@ async fn run_processor_level(store: &SqliteStore, case: &Case) -> Result<Vec<Ev>
                     evs.push(Ev::Quiescent);
                     return Ok(());
                 }
-                NextEnd::Hang { trace } => return Err(format!("Orderer::next made no progress for 10 s (store calls {trace:?})")),
+                NextEnd::Hang { trace } => return Err(format!("Orderer::next made no progress for 12 s (store calls {trace:?})")),
                 NextEnd::Cancelled { .. } => return Err("unexpected cancellation".into()),
             }
         }
